@@ -84,6 +84,9 @@ pub fn feat_for(args: &Args, rng: &mut Rng) -> Feat {
         // hostile profile: these properties need no reference semantics for what they observe
         f.raw_logic = rng.chance(1, 3);
     }
+    if matches!(args.prop.as_str(), "C01" | "C05") && !args.q("delay-time-out-of-range") {
+        f.hostile_delay_time = rng.chance(1, 2);
+    }
     if matches!(args.prop.as_str(), "C03" | "C05") {
         f.many_locals = rng.chance(1, 25);
         f.max_state_depth = 1 + rng.below(5);
